@@ -127,11 +127,14 @@ def struct_fields(src, relpath, name):
     if not m:
         raise Unsupported(f'struct {name} not found in {relpath}')
     out = []
-    for part in mirx.split_top(m.group(1)):
+    body = '\n'.join(re.sub(r'//.*$', '', ln) for ln in m.group(1).split('\n') if not ln.strip().startswith('#['))
+    for part in mirx.split_top(body):
         part = part.strip()
         if not part:
             continue
         part = re.sub(r'^pub(\([^)]*\))?\s+', '', part)
+        if ':' not in part:
+            continue
         fld, ty = part.split(':', 1)
         out.append((fld.strip(), ty.strip()))
     return out
